@@ -212,10 +212,8 @@ class OperatorMapper:
         elif isinstance(left, str) and not isinstance(right, str):
             expression = func.instr(literal(left), right) > 0
         elif not isinstance(left, str) and isinstance(right, str):
-            if hasattr(left, "contains"):
-                expression = left.contains(right)
-            else:
-                expression = left.like("%" + right + "%")
+            # not LIKE: '%' and '_' are characters like any other and the case matters
+            expression = func.instr(left, right) > 0
         elif isinstance(left, str) and isinstance(right, str):
             expression = literal(right in left)
         else:
